@@ -38,9 +38,29 @@ def gen_case(rng, n):
     return out
 
 
+def with_validators(r2, case):
+    """in one history out of three the `auth` level requires a validated e-mail, which some accounts have: a login of an account
+    without one is answered 300 with a token that does not open the session either; choices from a generator of their own"""
+    if not r2.chance(1, 3):
+        return case
+    out = [case[0], "validators on"]
+    for u in ("U1", "U2", "U3"):
+        if r2.chance(1, 3):
+            out.append(f"cred {u}")
+    rest = case[1:]
+    # more logins and token re-logins than in the plain histories
+    for _ in range(1 + r2.below(4)):
+        pos = r2.below(len(rest) + 1)
+        rest = rest[:pos] + [r2.choice(["login vfake ok:U1:auth", "login vfake ok:U3:auth", "login token last", "login token last",
+                                        "login vfake ok:U1:auth:validated", "login vfake ok:U1:auth:nologin", "cred U1", "validators off",
+                                        "validators on", "login vfake ok:U3:root"])] + rest[pos:]
+    return out + rest
+
+
 def gen_gate(rng, tier):
-    for _ in range(1500 if tier == "thorough" else 250):
-        for l in gen_case(rng, 4 + rng.below(16)):
+    for i in range(1500 if tier == "thorough" else 250):
+        case = gen_case(rng, 4 + rng.below(16))
+        for l in with_validators(rng.fork(f"validators-{i}"), case):
             yield l
 
 
@@ -62,8 +82,14 @@ def monitor(ops, outs):
     for i, (o, out) in enumerate(zip(ops, outs)):
         w = o.split(" ")
         if w[0] == "reset":
-            st = dict(ver="0", uid="-", lvl=0)
+            st = dict(ver="0", uid="-", lvl=0, validators=False, creds=set())
             start = i
+            continue
+        if w[0] == "validators" and st is not None:
+            st["validators"] = w[1] == "on"
+            continue
+        if w[0] == "cred" and st is not None:
+            st["creds"].add(w[1])
             continue
         if out in ("panic", "crash"):
             res.append((ops[start:i + 1], f"C11 the server panicked on `{o}`"))
@@ -117,11 +143,24 @@ def monitor(ops, outs):
                     ok = (p["uid"], p["lvl"]) == (sec[1], lv)
                 elif w[1] == "token":
                     ok = st.get("tok") is not None and not st["tok"][2] and (p["uid"], p["lvl"]) == st["tok"][:2]
+                # "a login that … requires more credential validation … leaves the session unauthenticated": with validators configured for
+                # the level, the session opens only for an account with a validated credential or a record which says so itself
+                if ok and st["validators"] and p["lvl"] == 20 and p["uid"] not in st["creds"]:
+                    said = (w[1] == "vfake" and "validated" in w[2].split(":")[3:]) or (w[1] == "token" and st.get("tok") and st["tok"][3])
+                    if not said:
+                        ok = False
+                        fails.append(f"`{o}` authenticated the session as {p['uid']} although the `auth` level requires a validated credential, the "
+                                     f"account has none and the record presented was issued without the validation (credential validation is bypassed)")
             if not ok:
                 fails.append(f"session identity changed from {st['uid']}/{st['lvl']} to {p['uid']}/{p['lvl']} by `{o}`")
-        if w[0] == "login" and codes[:1] == [200] and " token" in p["raw"] and len(w) > 2 and w[1] == "vfake":
-            sec = w[2].split(":")
-            st["tok"] = (sec[1], {"anon": 10, "auth": 20, "root": 30}.get(sec[2], 0), "nologin" in sec[3:])
+        if w[0] == "login" and codes[:1] in ([200], [300]) and " token" in p["raw"] and len(w) > 2:
+            # what the token stands for: the account, the level, the no-login restriction, and whether it was issued after the credentials
+            # had been found complete (200) or while something was missing (300)
+            if w[1] == "vfake":
+                sec = w[2].split(":")
+                st["tok"] = (sec[1], {"anon": 10, "auth": 20, "root": 30}.get(sec[2], 0), "nologin" in sec[3:], codes[:1] == [200])
+            elif w[1] == "token" and st.get("tok"):
+                st["tok"] = (st["tok"][0], st["tok"][1], st["tok"][2], codes[:1] == [200])
         for f in fails[:2]:
             res.append((ops[start:i + 1], "C11 " + f))
         st.update(ver=p["ver"], uid=p["uid"], lvl=p["lvl"])
